@@ -31,6 +31,33 @@ func c20Safe(f func() error) (err error, panicked string) {
 	return f(), ""
 }
 
+// c20Trim shortens the text of a violation (deeply nested inputs are several
+// KB of hex, amino wraps its error once per level); the case itself is in the
+// replay file.
+func c20Trim(err error) error {
+	if err == nil {
+		return nil
+	}
+	m := err.Error()
+	if len(m) <= 1800 {
+		return err
+	}
+	return fmt.Errorf("%s ...[%d bytes cut]... %s", m[:1000], len(m)-1600, m[len(m)-600:])
+}
+
+// c20Short renders a decoder error in at most ~360 characters (amino repeats
+// the input in its messages).
+func c20Short(err error) string {
+	if err == nil {
+		return "<nil>"
+	}
+	m := err.Error()
+	if len(m) > 360 {
+		m = m[:240] + " ... " + m[len(m)-100:]
+	}
+	return m
+}
+
 type c20Codec struct {
 	w *c20World
 	t *c20Type
@@ -78,6 +105,9 @@ func c20TypeByKey(w *c20World, key string) (*c20Type, error) {
 type c20ValCase struct {
 	T    string `json:"t"`
 	Tape []byte `json:"tape"`
+	// Deep > 0: the value has a forced spine of Deep nested non-nil interface
+	// values (c20_deep_test.go); T then is a type reaching a recursive interface.
+	Deep int `json:"deep,omitempty"`
 }
 
 func c20ExecValue(ctx *vk.Ctx, c c20ValCase) error {
@@ -86,10 +116,15 @@ func c20ExecValue(ctx *vk.Ctx, c c20ValCase) error {
 	if err != nil {
 		return err
 	}
-	ptr, g := c20Build(w, t, c.Tape)
+	ptr, g := c20BuildDeep(w, t, c.Tape, c.Deep)
 	cd := c20Codec{w, t}
 	lenient := &c20Cmp{w: w}
 	strict := &c20Cmp{w: w, strict: true}
+	lvl := g.maxIface // deepest interface (Any) nesting of the value
+	ctx.ClassIf(c.Deep > 0, "deep-spine")
+	if dc := c20DepthClass(lvl); dc != "" {
+		ctx.Class(dc)
+	}
 	ctx.NTIf(g.ifaceNonNil || g.nestedRepeated)
 	ctx.ClassIf(g.ifaceNonNil, "iface-nonnil")
 	ctx.ClassIf(g.nestedRepeated, "nested-repeated")
@@ -147,6 +182,34 @@ func c20ExecValue(ctx *vk.Ctx, c c20ValCase) error {
 			if (e1 == nil) != (e2 == nil) {
 				return fmt.Errorf("%s: decoders disagree on the encoding %x of an encode-only value: reflect err=%v ; genproto2 err=%v", c.T, bzR, e1, e2)
 			}
+		}
+		return nil
+	}
+
+	if lvl > c20MaxAnyDepth {
+		// Nested deeper than the decoders' documented limit: the round-trip
+		// clauses do not apply, but the encoding is a byte string like any
+		// other: both decoders accept it with equal values or both reject it.
+		d1, e1 := cd.decReflect(bzR)
+		if t.Gen2 {
+			d2, e2 := cd.decGen(bzR)
+			if (e1 == nil) != (e2 == nil) {
+				return fmt.Errorf("%s: decoders disagree on the encoding (%d bytes) of a value with %d nested interfaces (limit %d): reflect err=%s ; genproto2 err=%s", c.T, len(bzR), lvl, c20MaxAnyDepth, c20Short(e1), c20Short(e2))
+			}
+			if e1 == nil {
+				if err := strict.eq(d1.Elem(), d2.Elem(), c.T); err != nil {
+					return fmt.Errorf("the two decoders returned different values for a value with %d nested interfaces: %v", lvl, err)
+				}
+			}
+		}
+		if e1 == nil {
+			ctx.Class("beyond-limit-accepted")
+			if err := lenient.eq(ptr.Elem(), d1.Elem(), c.T); err != nil {
+				return fmt.Errorf("reflect round trip changed a value with %d nested interfaces: %v", lvl, err)
+			}
+		} else {
+			ctx.Class("beyond-limit-rejected")
+			ctx.ClassIf(c20IsDepthErr(e1), "beyond-limit-rejected-with-depth-error")
 		}
 		return nil
 	}
@@ -213,15 +276,35 @@ func c20ExecValue(ctx *vk.Ctx, c c20ValCase) error {
 	if want := c20AnyEnvelope(t.Info.TypeURL, inner); !bytes.Equal(anyBz, want) {
 		return fmt.Errorf("%s: MarshalAny = %x, want envelope %x", c.T, anyBz, want)
 	}
-	var iv any
-	if err := w.cdc.UnmarshalAny(anyBz, &iv); err != nil {
-		return fmt.Errorf("%s: UnmarshalAny of own envelope: %v", c.T, err)
+	var iv, iv2 any
+	errA := w.cdc.UnmarshalAny(anyBz, &iv)
+	errB := w.cdc.UnmarshalReflect(anyBz, &iv2)
+	if lvl+1 > c20MaxAnyDepth && (errA != nil || errB != nil) {
+		// The envelope adds one interface level to a value that is exactly at
+		// the limit: rejecting it is within the documented behaviour, but the
+		// two entry points must still agree.
+		if (errA == nil) != (errB == nil) {
+			if c20IsDepthErr(errB) && errA == nil && !t.Gen2 {
+				// not a generated-vs-reflection divergence: see c20TopAnyReflectOnly
+				ctx.Class(c20TopAnyReflectOnly)
+				return nil
+			}
+			return fmt.Errorf("%s: Any decoders disagree on the envelope of a value with %d nested interfaces (limit %d): UnmarshalAny err=%s ; UnmarshalReflect err=%s", c.T, lvl, c20MaxAnyDepth, c20Short(errA), c20Short(errB))
+		}
+		ctx.Class("any-envelope-beyond-limit-rejected")
+		errA, errB = nil, nil
+		iv, iv2 = nil, nil
 	}
-	var iv2 any
-	if err := w.cdc.UnmarshalReflect(anyBz, &iv2); err != nil {
-		return fmt.Errorf("%s: UnmarshalReflect(Any) of own envelope: %v", c.T, err)
+	if errA != nil {
+		return fmt.Errorf("%s: UnmarshalAny of own envelope: %v", c.T, errA)
+	}
+	if errB != nil {
+		return fmt.Errorf("%s: UnmarshalReflect(Any) of own envelope: %v", c.T, errB)
 	}
 	for _, got := range []any{iv, iv2} {
+		if got == nil {
+			continue // envelope beyond the nesting limit, rejected by both (above)
+		}
 		gv := reflect.ValueOf(got)
 		if t.PtrPref {
 			if gv.Kind() != reflect.Pointer || gv.Type().Elem() != t.RT {
@@ -293,9 +376,14 @@ func c20DrawTape(rt *rapid.T) []byte {
 
 func TestC20_Values(t *testing.T) {
 	w := c20GetWorld()
+	deep := c20GetDeep(w)
 	vk.Run(t, vk.Spec[c20ValCase]{
 		ID: "C20", Name: "TestC20_Values", Rule: c20ValRule,
 		Draw: func(rt *rapid.T) c20ValCase {
+			if rapid.IntRange(0, 31).Draw(rt, "family") == 31 { // nesting-depth family (a deep case costs ~20 plain ones)
+				ty := c20DrawDeepRoot(rt, deep.roots)
+				return c20ValCase{T: ty.Key, Deep: c20DrawDepth(rt), Tape: rapid.SliceOfN(rapid.Byte(), 0, 200).Draw(rt, "tape")}
+			}
 			ty := w.types[rapid.IntRange(0, len(w.types)-1).Draw(rt, "type")]
 			return c20ValCase{T: ty.Key, Tape: c20DrawTape(rt)}
 		},
@@ -309,7 +397,7 @@ func TestC20_Values(t *testing.T) {
 				fmt.Printf("COLLECT|%s|%s\n", c.T, strings.ReplaceAll(msg, "\n", " "))
 				return nil
 			}
-			return err
+			return c20Trim(err)
 		},
 	})
 }
@@ -392,6 +480,7 @@ type c20BytCase struct {
 	Tape []byte   `json:"tape"`          // value whose encoding is the mutation base
 	Raw  []byte   `json:"raw,omitempty"` // if Mode=="raw": the input itself
 	Mode string   `json:"mode"`          // "mut" | "raw" | "any"
+	Deep int      `json:"deep,omitempty"` // base value has a forced spine of Deep nested interfaces
 	Any  int      `json:"any"`           // any-mode: which interface (mod count) to decode into
 	Muts []c20Mut `json:"muts"`
 }
@@ -412,7 +501,11 @@ func c20ExecBytes(ctx *vk.Ctx, c c20BytCase) error {
 	if c.Mode == "raw" {
 		in = c.Raw
 	} else {
-		ptr, _ := c20Build(w, t, c.Tape)
+		ptr, g := c20BuildDeep(w, t, c.Tape, c.Deep)
+		ctx.ClassIf(c.Deep > 0, "deep-spine")
+		if dc := c20DepthClass(g.maxIface); dc != "" {
+			ctx.Class("base-" + dc)
+		}
 		if c.Mode == "any" {
 			valid, err = w.cdc.MarshalAny(ptr.Interface())
 		} else {
@@ -426,6 +519,7 @@ func c20ExecBytes(ctx *vk.Ctx, c c20BytCase) error {
 		for _, m := range c.Muts {
 			in = c20Mutate(in, m, 0)
 			ctx.Class("op=" + c20OpNames[c20Abs(m.Op)%c20NumOps])
+			ctx.ClassIf(m.Heavy > 0, "mut-deep-in-nest")
 		}
 	}
 	ctx.ClassIf(valid != nil && bytes.Equal(in, valid), "mutation-was-identity")
@@ -462,7 +556,10 @@ func c20ExecBytes(ctx *vk.Ctx, c c20BytCase) error {
 			if err1 == nil && c20IsTooSmallErr(err2) && c20EndsWithBareBytesKey(in, 0) && ctx.Known(c20KnownBareKey) {
 				return nil
 			}
-			return fmt.Errorf("%s: decoders disagree on %x: reflect err=%v ; genproto2 err=%v", c.T, in, err1, err2)
+			if c20IsDepthErr(err1) && err2 == nil && c20IsEmptyIfaceAtLimit(w, in, d2.Elem()) && ctx.Known(c20KnownEmptyIfaceAtLimit) {
+				return nil
+			}
+			return fmt.Errorf("%s: decoders disagree: reflect err=%s ; genproto2 err=%s ; input %x", c.T, c20Short(err1), c20Short(err2), in)
 		}
 		if err1 == nil {
 			if err := strict.eq(d1.Elem(), d2.Elem(), c.T); err != nil {
@@ -576,7 +673,18 @@ func c20ExecAnyBytes(ctx *vk.Ctx, w *c20World, t *c20Type, c c20BytCase, in []by
 		if err1 == nil && c20IsTooSmallErr(err2) && c20EndsWithBareBytesKey(in, 0) && ctx.Known(c20KnownBareKey) {
 			return nil
 		}
-		return fmt.Errorf("Any decoders disagree on %x into %v: UnmarshalReflect err=%v ; UnmarshalAny err=%v", in, it, err1, err2)
+		if c20IsDepthErr(err1) && err2 == nil {
+			// v2 holds what UnmarshalAny built; the reflection decoder counted
+			// the outermost envelope as one more level.
+			if c20IfaceDepth(w, v2.Elem())-1 == c20MaxAnyDepth && c20IsReflectOnly(w, v2.Elem()) {
+				ctx.Class(c20TopAnyReflectOnly)
+				return nil
+			}
+			if c20EmptyPayloadDepth(in) >= 2*c20MaxAnyDepth-1 && c20IfaceDepth(w, v2.Elem())-1 == c20MaxAnyDepth-1 && ctx.Known(c20KnownEmptyIfaceAtLimit) {
+				return nil
+			}
+		}
+		return fmt.Errorf("Any decoders disagree (into %v): UnmarshalReflect err=%s ; UnmarshalAny err=%s ; input %x", it, c20Short(err1), c20Short(err2), in)
 	}
 	ctx.NTIf(err1 == nil)
 	if err1 != nil {
@@ -741,9 +849,27 @@ func c20ByteTypes(w *c20World) []*c20Type {
 func TestC20_Bytes(t *testing.T) {
 	w := c20GetWorld()
 	types := c20ByteTypes(w)
+	deepRoots := c20DeepByteRoots(w)
 	vk.Run(t, vk.Spec[c20BytCase]{
 		ID: "C20", Name: "TestC20_Bytes", Rule: c20BytRule,
 		Draw: func(rt *rapid.T) c20BytCase {
+			if rapid.IntRange(0, 7).Draw(rt, "family") == 7 { // nesting-depth family
+				ty := c20DrawDeepRoot(rt, deepRoots)
+				c := c20BytCase{T: ty.Key, Mode: "mut", Deep: c20DrawDepth(rt)}
+				if rapid.IntRange(0, 2).Draw(rt, "anymode") == 0 {
+					c.Mode = "any"
+					c.Any = rapid.IntRange(0, 15).Draw(rt, "any")
+				}
+				c.Tape = rapid.SliceOfN(rapid.Byte(), 0, 200).Draw(rt, "tape")
+				if rapid.IntRange(0, 5).Draw(rt, "pristine") != 0 { // else: the undamaged deep encoding
+					c.Muts = c20DrawMuts(rt)
+					for i := range c.Muts {
+						// reach into the nest: two length-delimited levels per interface level
+						c.Muts[i].Heavy = rapid.IntRange(0, 2*c.Deep+2).Draw(rt, "heavy")
+					}
+				}
+				return c
+			}
 			ty := types[rapid.IntRange(0, len(types)-1).Draw(rt, "type")]
 			c := c20BytCase{T: ty.Key}
 			switch rapid.IntRange(0, 9).Draw(rt, "mode") {
@@ -772,7 +898,7 @@ func TestC20_Bytes(t *testing.T) {
 				fmt.Printf("COLLECT|%s|%s\n", c.T, strings.ReplaceAll(msg, "\n", " "))
 				return nil
 			}
-			return err
+			return c20Trim(err)
 		},
 	})
 }
